@@ -163,6 +163,12 @@ HARNESSES = [
             thorough={'n': 3, 'procs': 1, 'apps': 2, 'lean': True},
             reach=('requested', 'nothing-requested'), timeout=(120, 1200),
             doc='two applications of the same rank started by Starter.start_applications (concurrent starts)'),
+    Harness('H04b-dist', start_apps, quick={'n': 2, 'procs': 2, 'apps': 1, 'lean': False,
+                                           'dist': ('SINGLE_NODE',)},
+            thorough={'n': 3, 'procs': 2, 'apps': 1, 'lean': False, 'dist': ('SINGLE_INSTANCE', 'SINGLE_NODE')},
+            reach=('requested', 'nothing-requested'), timeout=(120, 1200),
+            doc='eligibility of the targets under the SINGLE_INSTANCE / SINGLE_NODE distribution rules (program known '
+                'or disabled on some instances of the node only)'),
     Harness('H04c', identify_twice, quick={'n': 3}, thorough={'n': 3}, reach=('done',), timeout=(60, 300),
             doc='repeated handshakes: node load counts each instance once'),
 ]
